@@ -252,7 +252,7 @@ fn store_cases(tier: Tier) -> Vec<SCase> {
     wrap.dedup();
     for bpp in BPPS {
         for be in [false, true] {
-            for len in 0..=tier.pick(8, 12) {
+            for len in 0..=tier.pick(10, 12) {
                 let total = if bpp < 8 { len * 8 / bpp as usize } else { len / (bpp as usize / 8) };
                 let mut idxs: Vec<u128> = (0..=total as u128 + 2).collect();
                 idxs.extend(wrap.iter().copied());
@@ -279,7 +279,7 @@ fn run_part(run: &mut Run) {
     let mut inits = vec![];
     for bpp in BPPS {
         for be in [false, true] {
-            for len in 0..=tier.pick(6, 9) {
+            for len in 0..=tier.pick(7, 9) {
                 inits.push(IInit { bpp, be, data: egverif::imgs::pattern(0, len) });
             }
         }
